@@ -61,10 +61,7 @@ def instantiate(ob):
     out = []
     for sch in ob.schemas:
         for t in by_kind.get(sch.kind, {}).values():
-            try:
-                out.append(sch.fn(t))
-            except Unsupported:
-                pass
+            out.append(sch.fn(t))
     return out
 
 
@@ -137,6 +134,8 @@ def verify_function(src, reg, qual, timeout_ms=10000, select=None):
         st.assume(z3.Implies(w.V.is_ref(v.e), z3.And(w.V.r(v.e) > 0, w.V.r(v.e) <= st.alloc)))
         if v.ty and v.ty.startswith("ref:"):
             st.terms.append(("ref", o.r(v)))
+            if src.is_subclass(v.ty[4:], "Config"):
+                st.terms.append(("cfg", o.r(v)))
         st.locals[p] = names[p] = v
     if cls is not None and not is_cm and kind in ("method", "property", "setter"):
         # this body runs for receivers whose class resolves the method to this definition
